@@ -124,9 +124,10 @@ def run_check(prop, fn, tier, repo, seed=0, replay=None, level="other", checker_
         # instance floors
         if aborted:
             ctx.floors = {}
+        any_fail = any(o.status == "fail" for o in ctx.obs)
         for rule, n in ctx.floors.items():
             have = sum(1 for o in ctx.obs if o.rule == rule)
-            if have < n:
+            if have < n and not any_fail:  # a refuted tree may legitimately skip dependent obligations
                 raise AnalysisError(f"rule {rule} matched {have} instances, fewer than the confirmed floor {n}")
         if not ctx.obs:
             raise AnalysisError("no obligations were generated")
